@@ -49,6 +49,7 @@ class C14(Prop):
     assumptions = ['values are exact (packing only moves elements, so A-real is immaterial here)',
                    'torch.distributed by the simulator contract (per-group FIFO matching, in-place results)']
     stubs = ['torch.distributed -> simulator']
+    replay_random_tries = 2   # structural failures do not depend on the data
     trusted_base = ['z3 5.1.0', 'vkit.symex', 'symtorch shim indexing semantics (validated against torch for the triu pipeline)']
 
     def bounds(self, tier):
